@@ -13,6 +13,7 @@ void gen_async_ops(Rng &g, run::Plan &p, int nops, bool ha, int neps) {
 	bool c14 = p.property == "C14";
 	struct W { const char *k; int w; };
 	std::vector<W> ws = {{"ADD", 20}, {"RUN", 26}, {"SRVREAD", 10}, {"REPLY", 16}, {"DELIVER", 16}, {"TICK", 6}, {"FREE", 3}, {"READD", 4}};
+	if (p.c("recreate", 0)) ws.push_back({"RECREATE", 2});
 	if (adv) { ws.push_back({"DUP", 2}); ws.push_back({"PREMATURE", ha ? 0 : 2}); ws.push_back({"PUSHCONF", ha ? 6 : 2}); ws.push_back({"TAMPER", c06 ? 12 : 2}); }
 	else if (ha) ws.push_back({"PUSHCONF", 6});
 	static const char *fk[] = {"CLOSE", "RESET", "REFUSE", "BLACKHOLE", "DNSFAIL", "SENDBUF", "SENDCUT", "RECVCUT", "CONNDELAY", "JUMP", "HTTPSTATUS"};
@@ -101,6 +102,10 @@ void gen_async_cfg(Rng &g, run::Plan &p, bool ha) {
 	p.cfg["epoch_ms"] = (int64_t)g.below(1000);
 	p.cfg["loglevel"] = g.chance(1, 6) ? 5 : 0;
 	p.cfg["quiesce"] = 1;
+	// the application replaces the service object in the middle of the run (requests outstanding are abandoned)
+	// (TCP endpoints only: freeing an HTTP service with transfers in flight leaves their easy handles attached to the context-wide
+	// curl multi handle with dangling user pointers - see DESIGN.md 10.6 - which is outside the properties studied here)
+	p.cfg["recreate"] = (g.chance(1, 5) && p.c("transport") == 0) ? 1 : 0;
 	// configuration requests among the submissions (plain service, PDU version 2)
 	p.cfg["conf_req"] = (!ha && p.c("pdu_ver") == 2 && g.chance(1, 4)) ? 1 : 0;
 	if (ha) p.cfg["eps"] = (int64_t)g.range(1, 3);
